@@ -138,10 +138,29 @@ class DictWriter:
                 "binding": self.write_binding(variable.binding),
                 "amount": variable.amount,
                 "alignment": variable.alignment,
+                "value": self.write_initial_value(variable.value),
             }
         else:  # pragma: no cover
             raise NotImplementedError(str(variable))
         return json_variable
+
+    def write_initial_value(self, value):
+        """Initial value: a sequence of bytes and references to labels."""
+        if value is None:
+            return None
+        json_parts = []
+        for part in value:
+            if isinstance(part, bytes):
+                json_part = {"kind": "data", "data": bin2asc(part)}
+            else:
+                ty, label = part
+                json_part = {
+                    "kind": "label",
+                    "type": self.write_type(ty),
+                    "name": label,
+                }
+            json_parts.append(json_part)
+        return json_parts
 
     def write_subroutine(self, subroutine):
         json_binding = self.write_binding(subroutine.binding)
@@ -417,9 +436,24 @@ class DictReader:
         binding = self.construct_binding(json_variable["binding"])
         amount = json_variable["amount"]
         alignment = json_variable["alignment"]
-        variable = ir.Variable(name, binding, amount, alignment)
+        value = self.construct_initial_value(json_variable.get("value"))
+        variable = ir.Variable(name, binding, amount, alignment, value=value)
         self.register_value(variable)
         return variable
+
+    def construct_initial_value(self, json_parts):
+        if json_parts is None:
+            return None
+        parts = []
+        for json_part in json_parts:
+            if json_part["kind"] == "data":
+                parts.append(asc2bin(json_part["data"]))
+            elif json_part["kind"] == "label":
+                ty = self.get_type(json_part["type"])
+                parts.append((ty, json_part["name"]))
+            else:  # pragma: no cover
+                raise NotImplementedError(json_part["kind"])
+        return tuple(parts)
 
     def construct_subroutine(self, json_subroutine):
         name = json_subroutine["name"]
